@@ -61,35 +61,48 @@ ASSUMPTIONS = [
 ]
 CHUNK = 1
 
-HEAVY = {"EnergyDependentWidth": 2, "FormFactor": 4, "BlattWeisskopfSquared": 6, "Kibble": 6}
-DEFAULT_CHUNK = {"quick": 8, "thorough": 10}
+# rough seconds per (map, method) evaluation, used only to balance the pool
+COST = {"EnergyDependentWidth": 0.12, "FormFactor": 0.08, "BlattWeisskopfSquared": 0.05,
+        "Kibble": 0.05, "EqualMassPhaseSpaceFactor": 0.2, "PhaseSpaceFactorSWave": 0.1,
+        "PhaseSpaceFactorAbs": 0.08, "PhaseSpaceFactor": 0.05}
+TARGET_CASE_SECONDS = {"quick": 8.0, "thorough": 25.0}
 
 
-def _chunk_size(name: str, tier: str) -> int:
-    return HEAVY.get(name, DEFAULT_CHUNK[tier])
+def shape_weight(desc, name: str, tier: str, is_base: bool) -> float:
+    maps = enumerate_maps(desc, tier, is_base)
+    w = (2 * len(maps) + 8) * COST.get(name, 0.03)
+    if any(_category(leaf) == "int" for leaf in unique_leaves(desc)):
+        w *= 12
+    return w
 
 
 def cases(tier, seed):
-    out = [{"kind": "registry", "tier": tier, "seed": seed}]
+    out = [{"kind": "registry", "tier": tier, "seed": seed, "w": 0}]
     infos = R.infos()
     by_signature = {}
     for q, i in infos.items():
         shapes = R.shapes_for(q, tier)
         if not shapes:
             continue
-        n = _chunk_size(i.name, tier)
-        for k in range(0, len(shapes), n):
-            out.append({"kind": "laws", "cls": q, "first": k, "shapes": shapes[k:k + n],
-                        "tier": tier, "seed": seed})
-        out.append({"kind": "pairs", "cls": q, "tier": tier, "seed": seed})
+        chunk, weight, first = [], 0.0, 0
+        for k, d in enumerate(shapes):
+            w = shape_weight(d, i.name, tier, k == 0)
+            if chunk and weight + w > TARGET_CASE_SECONDS[tier]:
+                out.append({"kind": "laws", "cls": q, "first": first, "shapes": chunk, "tier": tier,
+                            "seed": seed, "w": round(weight, 1)})
+                chunk, weight, first = [], 0.0, k
+            chunk.append(d)
+            weight += w
+        out.append({"kind": "laws", "cls": q, "first": first, "shapes": chunk, "tier": tier, "seed": seed,
+                    "w": round(weight, 1)})
+        out.append({"kind": "pairs", "cls": q, "tier": tier, "seed": seed, "w": round(len(shapes) ** 2 * 2e-4, 1)})
         if i.unevaluated:
             by_signature.setdefault(tuple(f.name for f in i.fields), []).append(q)
     for sig, quals in sorted(by_signature.items()):
         if len(quals) > 1:
-            out.append({"kind": "cross", "classes": quals, "tier": tier, "seed": seed})
+            out.append({"kind": "cross", "classes": quals, "tier": tier, "seed": seed, "w": 0.1})
     # heavy cases first so that the pool is not left waiting for one straggler
-    weight = {"laws": 0, "pairs": 1, "cross": 2, "registry": 3}
-    out.sort(key=lambda c: (weight[c["kind"]], -HEAVY.get(c.get("cls", "").rsplit(".", 1)[-1], 0) if c["kind"] == "laws" else 0))
+    out.sort(key=lambda c: -c["w"])
     return out
 
 
@@ -111,6 +124,20 @@ def _leaf_desc(leaf):
     return ["arr", name] if kind == "arr" else ["sym", name, json.loads(ass)]
 
 
+def _category(leaf) -> str:
+    """arr (by first letter: four-momentum / 3-vector), int (angular momenta, event counts)
+    or scalar; symbols are only swapped within a category."""
+    kind, name, ass, _ = leaf
+    if kind == "arr":
+        return f"arr:{name[0]}"
+    a = json.loads(ass)
+    if a.get("integer") or name in R._INT_NAMES:
+        return "int"
+    if name in R._SIZE_NAMES or name.startswith("n_"):
+        return "size"
+    return "scalar"
+
+
 def targets(leaf, pos: int) -> dict:
     kind, name, ass, _ = leaf
     if kind == "arr":
@@ -119,7 +146,7 @@ def targets(leaf, pos: int) -> dict:
     a = json.loads(ass)
     fresh = ["sym", f"{name}_r", a]
     base = name
-    intlike = bool(a.get("integer")) or base in R._INT_NAMES or base in R._SIZE_NAMES or base.startswith("n_")
+    intlike = _category(leaf) in {"int", "size"}
     if intlike:
         size = base in R._SIZE_NAMES or base.startswith("n_")
         return {"sym": fresh, "num": ["int", R.N_EVENTS if size else 2], "cmp": ["cmp", "inc", [fresh]]}
@@ -127,36 +154,71 @@ def targets(leaf, pos: int) -> dict:
             "cmp": ["cmp", "avg", [["sym", name, a], fresh]]}
 
 
-def enumerate_maps(desc, tier: str) -> list:
-    """[(label, [[leaf descriptor, target descriptor], ...], hits_nested)]"""
+def enumerate_maps(desc, tier: str, is_base: bool = False) -> list:
+    """[(label, [[leaf descriptor, target descriptor], ...], hits_nested)]
+
+    Single maps: every symbol x every target.  Pair maps: on the base shape of a class
+    every pair of symbols (quick: neighbouring pairs) x target combinations + swap; on the
+    other shapes the pairs that involve a symbol inside a nested argument (quick: the first
+    such pair).  Shapes with a *symbolic* angular momentum (slow symbolic sums): quick only
+    the maps of that symbol, thorough single maps only."""
     lv = unique_leaves(desc)
     tg = [targets(leaf, k) for k, leaf in enumerate(lv)]
+    symbolic_l = any(_category(leaf) == "int" for leaf in lv)
     out = []
     for k, leaf in enumerate(lv):
+        if symbolic_l and tier != "thorough" and _category(leaf) != "int":
+            continue
         for tk, t in tg[k].items():
             out.append((f"{leaf[1]}->{tk}", [[_leaf_desc(leaf), t]], leaf[3] > 0))
     n = len(lv)
-    if tier == "thorough":
-        pairs = list(itertools.combinations(range(n), 2))
-    else:
-        pairs = [(k, k + 1) for k in range(n - 1)]
-        if n > 2:
+    if symbolic_l or n < 2:
+        return out
+    thorough = tier == "thorough"
+    if is_base:
+        pairs = list(itertools.combinations(range(n), 2)) if thorough else [(k, k + 1) for k in range(n - 1)]
+        if not thorough and n > 2:
             pairs.append((0, n - 1))
+        combos_wanted = None if thorough else (("sym", "sym"), ("num", "cmp"), ("cmp", "num"), ("cmp", "sym"))
+        n_combos = 9 if thorough else 3
+        swap = True
+    else:
+        nested = [k for k, leaf in enumerate(lv) if leaf[3] > 0]
+        pairs = []
+        for k in nested:
+            for j in range(n):
+                if j != k and (min(j, k), max(j, k)) not in pairs:
+                    pairs.append((min(j, k), max(j, k)))
+        if not thorough:
+            pairs = pairs[:1]
+        combos_wanted = (("sym", "sym"), ("num", "cmp"), ("cmp", "num"))
+        n_combos = 3 if thorough else 1
+        swap = True
     for i, j in pairs:
-        if tier == "thorough":
+        if combos_wanted is None:
             combos = list(itertools.product(tg[i], tg[j]))
         else:
-            combos = [c for c in (("sym", "sym"), ("num", "cmp"), ("cmp", "num"), ("cmp", "sym"))
-                      if c[0] in tg[i] and c[1] in tg[j]][:3]
-        for ti, tj in combos:
+            combos = [c for c in combos_wanted if c[0] in tg[i] and c[1] in tg[j]]
+        for ti, tj in combos[:n_combos]:
             out.append((f"{lv[i][1]}->{ti},{lv[j][1]}->{tj}",
                         [[_leaf_desc(lv[i]), tg[i][ti]], [_leaf_desc(lv[j]), tg[j][tj]]],
                         lv[i][3] > 0 or lv[j][3] > 0))
-        if lv[i][0] == lv[j][0]:
+        if swap and _category(lv[i]) == _category(lv[j]):
             out.append((f"{lv[i][1]}<->{lv[j][1]}",
                         [[_leaf_desc(lv[i]), _leaf_desc(lv[j])], [_leaf_desc(lv[j]), _leaf_desc(lv[i])]],
                         lv[i][3] > 0 or lv[j][3] > 0))
     return out
+
+
+def undummy(expr):
+    """Rename Dummy symbols canonically (two unfoldings create different Dummies)."""
+    import sympy as sp  # noqa: PLC0415
+
+    seen = {}
+    for node in sp.preorder_traversal(expr):
+        if isinstance(node, sp.Dummy) and node not in seen:
+            seen[node] = sp.Symbol(f"_dummy{len(seen)}", **node.assumptions0)
+    return expr.xreplace(seen) if seen else expr
 
 
 def apply_map(expr, rule: dict, method: str):
@@ -317,7 +379,7 @@ def check_law4(rec: Recorder, e, ed, info, desc, seed: int, known: bool) -> None
         rec.out("law4:no-reference")
 
 
-def check_shape(rec: Recorder, desc, tier: str, seed: int) -> None:
+def check_shape(rec: Recorder, desc, tier: str, seed: int, is_base: bool = False) -> None:
     import sympy as sp  # noqa: PLC0415
 
     qual = desc[1]
@@ -369,7 +431,7 @@ def check_shape(rec: Recorder, desc, tier: str, seed: int) -> None:
     check_law4(rec, e, ed, info, desc, seed, known)
 
     # ---- law 1: substitution commutes with unfolding
-    maps = enumerate_maps(desc, tier)
+    maps = enumerate_maps(desc, tier, is_base)
     for label, pairs, nested in maps:
         rule = {R.build(a): R.build(b) for a, b in pairs}
         for method in ("xreplace", "subs"):
@@ -396,7 +458,7 @@ def check_shape(rec: Recorder, desc, tier: str, seed: int) -> None:
                                   f" {R.nonsympy_attrs(folded)} != {attrs}", desc, known, [method, "attribute-lost"],
                             {"map": pairs})
                     continue
-            if lhs == rhs:
+            if lhs == rhs or undummy(lhs) == undummy(rhs):
                 rec.out("law1:structurally-equal")
             else:
                 verdict, how, detail = R.numeric_compare(lhs, rhs, seed)
@@ -417,8 +479,8 @@ def check_shape(rec: Recorder, desc, tier: str, seed: int) -> None:
 def eval_laws(case) -> dict:
     info = R.info(case["cls"])
     rec = Recorder(info.name)
-    for desc in case["shapes"]:
-        check_shape(rec, desc, case["tier"], case.get("seed", 0))
+    for k, desc in enumerate(case["shapes"]):
+        check_shape(rec, desc, case["tier"], case.get("seed", 0), is_base=(case.get("first", 0) + k == 0))
     if rec.sample is None and case["shapes"]:
         rec.sample = {"class": info.name, "shape": R.describe(case["shapes"][0]), "shapes_in_case": len(case["shapes"])}
     return rec.result()
